@@ -94,7 +94,18 @@ for _k in (0, 1, 3, 4, 7, 8, 12):
 for _k in (0, 1, 3):
     op("rotate_left_%d" % _k, "xsimd::rotate_left<%d>(a)" % _k, "B", ALL_TYPES)
     op("rotate_right_%d" % _k, "xsimd::rotate_right<%d>(a)" % _k, "B", ALL_TYPES)
-# constant index packs are generated per lane count by entries.const_pack_ops()
+# shuffle with compile-time index packs (generated per lane count): out[i] = idx[i] < n ? x[idx[i]] : y[idx[i] - n]
+SHUFFLE_PACKS = {
+    "zipstride": lambda n: [(i if i % 2 == 0 else n + i - 1) for i in range(n)],           # 0, n, 2, n+2, ...   (not a zip)
+    "ziplo": lambda n: [(i // 2 if i % 2 == 0 else n + i // 2) for i in range(n)],          # 0, n, 1, n+1, ...
+    "ziphi": lambda n: [(n // 2 + i // 2 if i % 2 == 0 else n + n // 2 + i // 2) for i in range(n)],
+    "rev": lambda n: [2 * n - 1 - i for i in range(n)],
+    "mix": lambda n: [(3 * i + 1) % (2 * n) for i in range(n)],
+    "sel": lambda n: [(i if i % 2 == 0 else n + i) for i in range(n)],
+    "fstrev": lambda n: [n - 1 - i for i in range(n)],
+}
+for _k in SHUFFLE_PACKS:
+    op("shuffle_" + _k, "xsimd::shuffle(a, b, xsimd::batch_constant<xsimd::as_unsigned_integer_t<T>, A, {PACK:%s}>{})" % _k, "BB", ALL_TYPES)
 # C04
 op("load_aligned", "B::load_aligned(p)", "p", ALL_TYPES)
 op("load_unaligned", "B::load_unaligned(p)", "p", ALL_TYPES)
@@ -162,6 +173,10 @@ def entry_text(opn, tid, aid):
         R = "xsimd::batch<%s, %s>" % (TYPES[d][0], A)
     else:
         R = {"B": B, "M": M, "X": "uint64_t", "T": T, "C": Cb}[ret]
+    if "{PACK:" in expr:
+        from .common import lanes
+        kind = expr[expr.index("{PACK:") + 6:expr.index("}", expr.index("{PACK:"))]
+        expr = expr.replace("{PACK:%s}" % kind, ", ".join(str(v) for v in SHUFFLE_PACKS[kind](lanes(tid, aid))))
     return 'extern "C" void %s(%s* r%s) { typedef %s B; typedef %s T; typedef %s A; %s *r = %s; }\n' % (
         entry_name(opn, tid, aid), R, "".join(", " + p for p in params), B, T, A, " ".join(prologue), expr)
 
